@@ -2,6 +2,9 @@ package vharness
 
 import (
 	"fmt"
+	"os"
+
+	"github.com/goptics/varmq/internal/queues"
 
 	"github.com/goptics/varmq/internal/vrt"
 )
@@ -38,16 +41,45 @@ func runOpsX(kp kindPair, q2k QK, two bool, ops string) []vrt.Violation {
 
 // opsInstance is one fresh instance of the closed program "this call sequence on a fresh worker", for one execution:
 // under the canonical schedule (runOpsX) or under every schedule within a deviation bound (enumOpsNB).
+var dumpEvents bool
+
+// opsCfg: concurrency and FIFO segment capacities of the worker that the call sequences drive (0 = defaults: 2, real).
+type opsCfg struct{ conc, c0, c1 int }
+
 func opsInstance(kp kindPair, q2k QK, two bool, ops string) *vrt.Instance {
+	return opsInstanceCfg(kp, q2k, two, ops, opsCfg{})
+}
+
+func opsInstanceCfg(kp kindPair, q2k QK, two bool, ops string, cfg opsCfg) *vrt.Instance {
 	h := NewH()
 	h.Shape = Gated
 	h.CrashProp, h.HangProp = "C03", "C03"
 	h.Beh[1], h.Beh[3] = BErr, BPanic
 	in := &vrt.Instance{}
 	in.Setup = func(sc *vrt.Sched) { sc.Monitor = h.monitor }
-	in.Check = func(x *vrt.Exec) ([]vrt.Violation, uint64) { return h.Judge(x) }
+	in.Check = func(x *vrt.Exec) ([]vrt.Violation, uint64) {
+		v, hist := h.Judge(x)
+		if dumpEvents {
+			for _, e := range h.Events {
+				fmt.Fprintf(os.Stderr, "%d t%d %s %s j%d %s\n", e.Seq, e.T, e.K, e.Op, e.Job, e.Res)
+			}
+			for _, vv := range v {
+				fmt.Fprintln(os.Stderr, "VIOL", vv.Clause, vv.Detail)
+			}
+		}
+		return v, hist
+	}
 	in.Body = func() {
-		w := h.NewWorker(kp.W, 2)
+		conc := 2
+		if cfg.conc > 0 {
+			conc = cfg.conc
+		}
+		if cfg.c0 > 0 {
+			queues.VrtSetCaps(cfg.c0, cfg.c1)
+		} else {
+			queues.VrtSetCaps(1024, 100*1024)
+		}
+		w := h.NewWorker(kp.W, conc)
 		q := w.Bind(kp.Q, nil)
 		var q2, q3 *Q
 		if two {
@@ -199,7 +231,21 @@ func enumOps(r *SeqReport, kp kindPair, alphabet string, depth int, prefix strin
 	enumOpsWith(r, kp.String(), func(s string) []vrt.Violation { return runOps(kp, s) }, alphabet, depth, prefix)
 }
 
+// OPS_ONLY=<sequence> restricts an enumeration to one sequence (replay of a reported case).
 func enumOpsWith(r *SeqReport, label string, run func(string) []vrt.Violation, alphabet string, depth int, prefix string) {
+	if only := os.Getenv("OPS_ONLY"); only != "" {
+		if len(only) != depth || only[:len(prefix)] != prefix {
+			return
+		}
+		dumpEvents = true
+		vs := run(only)
+		dumpEvents = false
+		r.Traces++
+		for _, v := range vs {
+			r.V = append(r.V, SeqViolation{v.Prop, v.Clause, v.Detail, label + " ops=" + only})
+		}
+		return
+	}
 	seen := map[string]bool{}
 	var rec func(s string)
 	rec = func(s string) {
@@ -258,6 +304,46 @@ func init() {
 						r.Notes = append(r.Notes, fmt.Sprintf("every sequence of %d API calls starting with %s over the alphabet %s, each under every schedule with at most one non-default choice (states = executions), judged by the whole oracle suite", d, first, opsAlphabet))
 					},
 				})
+			}
+		}
+	}
+}
+
+// seq-ops-seg: the call sequences on a worker with concurrency 1 whose FIFO segments hold 1 and 2 (2 and 3) items, so
+// that exhausted read segments, full write segments and their reuse after Purge / queue Close are reached within a few calls.
+func init() {
+	for _, kp := range []kindPair{{Plain, Fifo}, {ResW, Fifo}} {
+		for _, caps := range [][2]int{{1, 2}, {2, 3}} {
+			kp, caps := kp, caps
+			label := fmt.Sprintf("%s/seg%d-%d", kp, caps[0], caps[1])
+			for i := 0; i < len(opsAlphabet); i++ {
+				first := string(opsAlphabet[i])
+				for _, d := range []int{4, 6} {
+					d := d
+					only := "quick"
+					if d == 6 {
+						only = "thorough"
+					}
+					if d == 4 && caps[0] == 2 {
+						d = 5 // (2,3): the first boundary needs one call more
+					}
+					Register(&Scenario{
+						Name: fmt.Sprintf("seq-ops-seg/%s/d%d/%s", label, d, first), Props: opsProps, Seq: true, Only: only,
+						SeqRun: func(r *SeqReport) {
+							r.Exhaustive = true
+							enumOpsWith(r, label, func(s string) []vrt.Violation {
+								in := opsInstanceCfg(kp, Fifo, false, s, opsCfg{1, caps[0], caps[1]})
+								x := vrt.Run(nil, nil, in.Setup, in.Body)
+								if x.EngineErr != "" {
+									return []vrt.Violation{{Prop: "engine", Clause: "engine", Detail: x.EngineErr}}
+								}
+								v, _ := in.Check(x)
+								return v
+							}, opsAlphabet, d, first)
+							r.Notes = append(r.Notes, fmt.Sprintf("every sequence of %d API calls starting with %s, concurrency 1, FIFO segment capacities (%d,%d)", d, first, caps[0], caps[1]))
+						},
+					})
+				}
 			}
 		}
 	}
